@@ -66,7 +66,7 @@ def C08(run):
 
 
 # ---------------------------------------------------------------------------------------------- cbor_load family
-LOAD_SRC = ["vh.c", "h_tree.c", "h_load.c"]
+LOAD_SRC = ["vh.c", "h_tree.c", "h_gen.c", "h_load.c"]
 _re_cur = re.compile(r"CURRENT-INPUT (\w+) idx=(\d+) hex=([0-9a-f]*)")
 
 
